@@ -9,7 +9,11 @@
    Tracked components ("core"): sc_strms sc_gone sc_open sc_ring sc_lastID sc_highestID sc_closing sc_closeRef sc_expectCont
    sc_readerQ sc_rl_done sc_sl_done sc_closer sc_wl_dead sc_now, and sc_out.
    Untracked (a `lite` move may change them at will): sc_initWin sc_oldest sc_clientWindow sc_currentWindow
-   sc_enc sc_dec sc_discardID sc_discardPrev sc_discardFields.
+   sc_enc sc_dec sc_discardID sc_discardFields; sc_discardPrev may change too, but only within the bound dp_ok
+   (header bytes carried over <= MaxHeaderListSize). An error path that ends the loop is replayed as
+   GOAWAY / panic note, break, and then one `mv_post` move (quiet_core: tracked components and output unchanged).
+   This file: is_frame, sloc, same_core / lite / quiet_core, the error classes of the frame handlers (good_err,
+   disc_err, sl_codes), and the lite / quiet lemmas of the helpers that never touch the tracked components.
 
    The section is generic in the HPACK coder and in a per-stream predicate Q (with closure hypotheses
    named HQ_xxx), so that value-level invariants of table streams ride along. *)
@@ -34,8 +38,22 @@ Proof. repeat split; auto. Qed.
 Lemma sloc_trans a b c : sloc a b -> sloc b c -> sloc a c.
 Proof. intros (A1 & A2 & A3 & A4) (B1 & B2 & B3 & B4). repeat split; try congruence. auto. Qed.
 
+(* the bound on header bytes carried over between two frames of a block *)
+Definition dp_ok (cfg : config) (b : bytes) : Prop :=
+  (0 < cf_maxHeaderList cfg -> Z.of_N (len b) <= cf_maxHeaderList cfg)%Z.
+
+Lemma dp_ok_nil cfg : dp_ok cfg [].
+Proof. unfold dp_ok. cbn. lia. Qed.
+Lemma dp_ok_check cfg b :
+  ((0 <? cf_maxHeaderList cfg) && (cf_maxHeaderList cfg <? Z.of_N (len b)))%Z = false -> dp_ok cfg b.
+Proof.
+  intros H HL. apply andb_false_iff in H. destruct H as [A|A]; apply Z.ltb_ge in A;
+    [exfalso; apply (Z.lt_irrefl 0), (Z.lt_le_trans _ _ _ HL A) | exact A].
+Qed.
+
 Section Core.
 Variable hstate : Type.
+Variable cfg : config.
 Notation sconn := (sconn hstate).
 Implicit Types c : sconn.
 
@@ -45,8 +63,14 @@ Definition same_core (c c' : sconn) : Prop :=
   sc_expectCont c' = sc_expectCont c /\ sc_readerQ c' = sc_readerQ c /\ sc_rl_done c' = sc_rl_done c /\
   sc_sl_done c' = sc_sl_done c /\ sc_closer c' = sc_closer c /\ sc_wl_dead c' = sc_wl_dead c /\ sc_now c' = sc_now c.
 
+(* a lite step: the tracked components stay, only frames are queued, and the carried-over bytes of a discarded block
+   stay within the bound *)
 Definition lite (c c' : sconn) : Prop :=
-  same_core c c' /\ exists l, sc_out c' = l ++ sc_out c /\ Forall is_frame l.
+  same_core c c' /\ (exists l, sc_out c' = l ++ sc_out c /\ Forall is_frame l) /\
+  (dp_ok cfg (sc_discardPrev c) -> dp_ok cfg (sc_discardPrev c')).
+
+(* the same without the bound and without output: what an error path may leave behind before the loop ends *)
+Definition quiet_core (c c' : sconn) : Prop := same_core c c' /\ sc_out c' = sc_out c.
 
 Lemma same_core_refl c : same_core c c.
 Proof. repeat split. Qed.
@@ -54,12 +78,17 @@ Lemma same_core_trans a b c : same_core a b -> same_core b c -> same_core a c.
 Proof. unfold same_core. intros H1 H2. decompose [and] H1. decompose [and] H2. repeat split; congruence. Qed.
 
 Lemma lite_refl c : lite c c.
-Proof. split; [apply same_core_refl|]. exists []. split; [reflexivity | constructor]. Qed.
+Proof. split; [apply same_core_refl|]. split; [|auto]. exists []. split; [reflexivity | constructor]. Qed.
 Lemma lite_trans a b c : lite a b -> lite b c -> lite a c.
 Proof.
-  intros [H1 (l1 & E1 & F1)] [H2 (l2 & E2 & F2)]. split; [eapply same_core_trans; eassumption|].
+  intros (H1 & (l1 & E1 & F1) & D1) (H2 & (l2 & E2 & F2) & D2). split; [eapply same_core_trans; eassumption|].
+  split; [|auto].
   exists (l2 ++ l1). split; [rewrite E2, E1, app_assoc; reflexivity | apply Forall_app; split; assumption].
 Qed.
+Lemma quiet_refl c : quiet_core c c.
+Proof. split; [apply same_core_refl | reflexivity]. Qed.
+Lemma quiet_trans a b c : quiet_core a b -> quiet_core b c -> quiet_core a c.
+Proof. intros [H1 E1] [H2 E2]. split; [eapply same_core_trans; eassumption | congruence]. Qed.
 
 Lemma lite_sl_done a b : lite a b -> sc_sl_done b = sc_sl_done a.
 Proof. intros [H _]. unfold same_core in H. tauto. Qed.
@@ -83,24 +112,167 @@ Lemma lite_closeRef a b : lite a b -> sc_closeRef b = sc_closeRef a.
 Proof. intros [H _]. unfold same_core in H. tauto. Qed.
 
 (* a change of untracked components only *)
-Lemma lite_core c c' : same_core c c' -> sc_out c' = sc_out c -> lite c c'.
-Proof. intros H E. split; [assumption|]. exists []. split; [assumption | constructor]. Qed.
+Lemma lite_core c c' : same_core c c' -> sc_out c' = sc_out c ->
+  (dp_ok cfg (sc_discardPrev c) -> dp_ok cfg (sc_discardPrev c')) -> lite c c'.
+Proof. intros H E D. split; [assumption|]. split; [|assumption]. exists []. split; [assumption | constructor]. Qed.
+
+Lemma lite_out c c' : lite c c' -> exists l, sc_out c' = l ++ sc_out c /\ Forall is_frame l.
+Proof. intros (_ & H & _). exact H. Qed.
+Lemma lite_dp c c' : lite c c' -> dp_ok cfg (sc_discardPrev c) -> dp_ok cfg (sc_discardPrev c').
+Proof. intros (_ & _ & H). exact H. Qed.
 
 Lemma lite_emit c o : is_frame o -> sc_sl_done c = false -> lite c (emit c o).
 Proof.
-  intros Ho Hd. split.
+  intros Ho Hd. split; [|split].
   - unfold same_core. sc_rw. repeat split.
   - rewrite sc_out_emit, Hd. destruct (sc_wl_dead c).
     + exists []. split; [reflexivity | constructor].
     + exists [o]. split; [reflexivity | repeat constructor; assumption].
+  - sc_rw. auto.
 Qed.
 
 End Core.
-Arguments same_core {hstate}. Arguments lite {hstate}.
+Arguments same_core {hstate}. Arguments lite {hstate}. Arguments quiet_core {hstate}.
 
 Ltac core_tac := unfold same_core; sc_cbn; repeat split; reflexivity.
 (* chain lite steps *)
 Ltac lite_step := eapply lite_trans; [|].
+
+(* ---------- which errors the frame handlers can return ---------- *)
+Section Errs.
+Variable hstate : Type.
+Variable dec_field : hstate -> N -> bytes -> dec_res hstate.
+Variable cfg : config.
+
+(* the codes of the GOAWAYs the stream loop sends on its own account *)
+Definition sl_codes : list N :=
+  [c_ProtocolError; c_FlowControlError; c_StreamClosedError; c_CompressionError; c_EnhanceYourCalm; c_InternalError].
+
+Lemma sl_codes_nonzero code : In code sl_codes -> (code =? c_NoError) = false.
+Proof. cbn. intros [<-|[<-|[<-|[<-|[<-|[<-|[]]]]]]]; reflexivity. Qed.
+
+(* a GOAWAY error carries one of these codes (never NO_ERROR); a panic comes from the HPACK decoder only *)
+Definition good_err (e : h2err) : Prop :=
+  match e with
+  | EGoAway code => In code sl_codes
+  | EReset _ => True
+  | EPanic => exists d n b, dec_field d n b = DPanic hstate
+  end.
+Definition good_oerr (e : option h2err) : Prop := match e with Some e => good_err e | None => True end.
+(* the errors of the discarding decoder: never a stream error *)
+Definition disc_err (e : h2err) : Prop :=
+  match e with
+  | EGoAway code => In code sl_codes
+  | EReset _ => False
+  | EPanic => exists d n b, dec_field d n b = DPanic hstate
+  end.
+Definition disc_oerr (e : option h2err) : Prop := match e with Some e => disc_err e | None => True end.
+
+Lemma disc_good e : disc_oerr e -> good_oerr e.
+Proof. destruct e as [[| |]|]; cbn; tauto. Qed.
+
+Lemma good_goaway code : existsb (N.eqb code) sl_codes = true -> good_err (EGoAway code).
+Proof. intro H. apply existsb_exists in H. destruct H as (x & I & E). cbn [good_err]. replace code with x by lia. exact I. Qed.
+Lemma disc_goaway code : existsb (N.eqb code) sl_codes = true -> disc_err (EGoAway code).
+Proof. exact (good_goaway code). Qed.
+
+Lemma header_field_err h k v e : header_field cfg h k v = inl e -> good_err e.
+Proof.
+  unfold header_field.
+  repeat match goal with
+         | |- (if ?b then _ else _) = _ -> _ => destruct b
+         | |- match ?x with Some _ => _ | None => _ end = _ -> _ => destruct x
+         | |- match (if ?b then _ else _) with inl _ => _ | inr _ => _ end = _ -> _ => destruct b
+         | |- match match ?x with Some _ => _ | None => _ end with inl _ => _ | inr _ => _ end = _ -> _ => destruct x
+         | |- (let (_, _) := ?p in _) = _ -> _ => destruct p
+         end;
+  intro H; inversion H; subst; try exact I; apply good_goaway; reflexivity.
+Qed.
+
+Lemma header_loop_err fuel : forall eh d h b d' h' e rest,
+  header_loop dec_field fuel cfg eh d h b = (d', h', Some e, rest) -> good_err e.
+Proof.
+  induction fuel as [|fuel IH]; intros eh d h b d' h' e rest; cbn [header_loop].
+  - intro H; inversion H; subst. apply good_goaway; reflexivity.
+  - destruct b as [|b0 b]; [discriminate|].
+    destruct (dec_field d (hd_blockFields h) (b0 :: b)) as [k v rest0 st|st|st|st|] eqn:D.
+    + destruct (header_field cfg h k v) eqn:HF.
+      * intro H; inversion H; subst. eapply header_field_err; eassumption.
+      * apply IH.
+    + discriminate.
+    + destruct (negb eh); [discriminate|]. intro H; inversion H; subst. apply good_goaway; reflexivity.
+    + intro H; inversion H; subst. apply good_goaway; reflexivity.
+    + intro H; inversion H; subst. cbn. eauto.
+Qed.
+
+Lemma discard_loop_err fuel : forall eh d n b d' n' carry e,
+  discard_loop dec_field fuel eh d n b = (d', n', carry, Some e) -> disc_err e.
+Proof.
+  induction fuel as [|fuel IH]; intros eh d n b d' n' carry e; cbn [discard_loop].
+  - intro H; inversion H; subst. apply disc_goaway; reflexivity.
+  - destruct b as [|b0 b]; [discriminate|].
+    destruct (dec_field d n (b0 :: b)) as [k v rest0 st|st|st|st|] eqn:D.
+    + apply IH.
+    + discriminate.
+    + destruct (negb eh); [discriminate|]. intro H; inversion H; subst. apply disc_goaway; reflexivity.
+    + intro H; inversion H; subst. apply disc_goaway; reflexivity.
+    + intro H; inversion H; subst. cbn. eauto.
+Qed.
+
+Lemma discard_fragment_err (c : sconn hstate) id frag eh : disc_oerr (snd (discard_fragment dec_field cfg c id frag eh)).
+Proof.
+  unfold discard_fragment.
+  destruct (discard_loop dec_field _ eh (sc_dec c) (sc_discardFields c) _) as [[[d' fields] carry] e] eqn:DL.
+  destruct e as [e|]; cbn [snd].
+  - eapply discard_loop_err; eassumption.
+  - destruct eh; cbn [snd]; [exact I|]. destruct (_ && _)%bool; cbn [snd]; [apply disc_goaway; reflexivity | exact I].
+Qed.
+
+Lemma discard_header_block_err (c : sconn hstate) fr : disc_oerr (snd (discard_header_block dec_field cfg c fr)).
+Proof. unfold discard_header_block. apply discard_fragment_err. Qed.
+
+Lemma handle_header_frame_err (c : sconn hstate) s fr : good_oerr (snd (handle_header_frame dec_field cfg c s fr)).
+Proof.
+  unfold handle_header_frame.
+  destruct (_ && _)%bool; [apply good_goaway; reflexivity|]. destruct (_ && _)%bool; [apply good_goaway; reflexivity|].
+  destruct (header_loop dec_field _ cfg _ (sc_dec c) _ _) as [[[d' h2] e] rest] eqn:HL.
+  destruct e as [e|].
+  - pose proof (header_loop_err _ _ _ _ _ _ _ _ _ HL) as G.
+    destruct e as [code|code|]; cbn [snd]; try exact G.
+    match goal with |- context [discard_fragment ?a ?b ?c0 ?d ?e ?f] =>
+      pose proof (disc_good _ (discard_fragment_err c0 d e f)) as L; destruct (discard_fragment a b c0 d e f) as [c3 [de|]] end;
+    cbn [snd] in *; [exact L | exact I].
+  - destruct (_ && _)%bool; cbn [snd]; [apply good_goaway; reflexivity | exact I].
+Qed.
+
+Lemma verify_state_err s fr e : verify_state s fr = Some e -> good_err e.
+Proof.
+  unfold verify_state. destruct (st_state s); try discriminate;
+  repeat match goal with |- (if ?b then _ else _) = _ -> _ => destruct b end;
+  intro H; inversion H; subst; apply good_goaway; reflexivity.
+Qed.
+
+Lemma handle_frame_err (c : sconn hstate) s fr : good_oerr (snd (handle_frame dec_field cfg c s fr)).
+Proof.
+  unfold handle_frame. destruct (verify_state s fr) eqn:V; [eapply verify_state_err; eassumption|].
+  pose proof (handle_header_frame_err c s fr) as LH.
+  match goal with |- context [match sf_kind fr with KHeaders => ?X | _ => _ end] => set (hb := X) end.
+  assert (HH : good_oerr (snd hb)).
+  { subst hb. destruct (_ && _)%bool; [apply good_goaway; reflexivity|].
+    destruct (handle_header_frame dec_field cfg c s fr) as [[c1 s1] e]. cbn [snd] in LH.
+    destruct e; [exact LH|]. destruct (flag_has (sf_flags fr) FL_EH); [|exact I].
+    cbv zeta. destruct (negb _); [apply good_goaway; reflexivity|].
+    unfold validate_request_pseudo_headers.
+    destruct (_ || _)%bool; [exact I|]. destruct (st_path _); exact I. }
+  clearbody hb.
+  destruct (sf_kind fr); try exact HH; try (apply good_goaway; reflexivity);
+  repeat match goal with |- context [if ?b then _ else _] => destruct b end; cbn [snd good_oerr good_err];
+  try exact I; apply good_goaway; reflexivity.
+Qed.
+
+End Errs.
+Arguments good_err {hstate}. Arguments good_oerr {hstate}. Arguments disc_err {hstate}. Arguments disc_oerr {hstate}.
+Ltac in_codes := cbn [sl_codes In]; tauto.
 
 Section Lite.
 Variable hstate : Type.
@@ -109,20 +281,25 @@ Variable enc_field : hstate -> bytes -> bytes -> bool -> bytes * hstate.
 Variable enc_set_max : hstate -> N -> hstate.
 Variable cfg : config.
 Notation sconn := (sconn hstate).
+Notation lite := (lite cfg).
 Implicit Types c : sconn.
 
 Lemma lite_upd_dec c d : lite c (upd_dec c d).
-Proof. apply lite_core; [core_tac | reflexivity]. Qed.
+Proof. apply lite_core; [core_tac | reflexivity | auto]. Qed.
 Lemma lite_upd_enc c d : lite c (upd_enc c d).
-Proof. apply lite_core; [core_tac | reflexivity]. Qed.
-Lemma lite_upd_discard c a b n : lite c (upd_discard c a b n).
-Proof. apply lite_core; [core_tac | reflexivity]. Qed.
+Proof. apply lite_core; [core_tac | reflexivity | auto]. Qed.
+Lemma lite_upd_discard c a b n : dp_ok cfg b -> lite c (upd_discard c a b n).
+Proof. intro D. apply lite_core; [core_tac | reflexivity | auto]. Qed.
+Lemma quiet_upd_discard c a b n : quiet_core c (upd_discard c a b n).
+Proof. split; [core_tac | reflexivity]. Qed.
+Lemma quiet_upd_dec c d : quiet_core c (upd_dec c d).
+Proof. split; [core_tac | reflexivity]. Qed.
 Lemma lite_upd_clientWindow c n : lite c (upd_clientWindow c n).
-Proof. apply lite_core; [core_tac | reflexivity]. Qed.
+Proof. apply lite_core; [core_tac | reflexivity | auto]. Qed.
 Lemma lite_upd_currentWindow c n : lite c (upd_currentWindow c n).
-Proof. apply lite_core; [core_tac | reflexivity]. Qed.
+Proof. apply lite_core; [core_tac | reflexivity | auto]. Qed.
 Lemma lite_upd_initWin c n : lite c (upd_initWin c n).
-Proof. apply lite_core; [core_tac | reflexivity]. Qed.
+Proof. apply lite_core; [core_tac | reflexivity | auto]. Qed.
 
 Lemma lite_write_reset c sid code : sc_sl_done c = false -> lite c (write_reset c sid code).
 Proof. intro H. apply lite_emit; [exact I | assumption]. Qed.
@@ -147,58 +324,124 @@ Proof.
     apply lite_credit_conn_window. unfold write_window_update. rewrite sc_sl_done_emit. exact H.
 Qed.
 
-Lemma lite_discard_fragment c id frag eh : lite c (fst (discard_fragment dec_field cfg c id frag eh)).
+Lemma quiet_discard_fragment c id frag eh : quiet_core c (fst (discard_fragment dec_field cfg c id frag eh)).
 Proof.
   unfold discard_fragment.
   destruct (discard_loop dec_field _ eh (sc_dec c) (sc_discardFields c) _) as [[[d' fields] carry] e].
-  destruct e as [e|].
-  - cbn [fst]. eapply lite_trans; [apply lite_upd_dec | apply lite_upd_discard].
-  - destruct eh; cbn [fst].
-    + eapply lite_trans; [apply lite_upd_dec | apply lite_upd_discard].
-    + destruct (_ && _)%bool; cbn [fst]; (eapply lite_trans; [apply lite_upd_dec | apply lite_upd_discard]).
+  destruct e as [e|]; [|destruct eh; [|destruct (_ && _)%bool]]; cbn [fst];
+    (eapply quiet_trans; [apply quiet_upd_dec | apply quiet_upd_discard]).
 Qed.
 
-Lemma lite_discard_header_block c fr : lite c (fst (discard_header_block dec_field cfg c fr)).
+(* without an error, what is stored is within the bound *)
+Lemma lite_discard_fragment c id frag eh :
+  snd (discard_fragment dec_field cfg c id frag eh) = None -> lite c (fst (discard_fragment dec_field cfg c id frag eh)).
+Proof.
+  unfold discard_fragment.
+  destruct (discard_loop dec_field _ eh (sc_dec c) (sc_discardFields c) _) as [[[d' fields] carry] e].
+  destruct e as [e|]; [discriminate|].
+  destruct eh; cbn [fst snd].
+  - intros _. eapply lite_trans; [apply lite_upd_dec | apply lite_upd_discard, dp_ok_nil].
+  - destruct (_ && _)%bool eqn:Lim; cbn [fst snd]; [discriminate|]. intros _.
+    eapply lite_trans; [apply lite_upd_dec | apply lite_upd_discard, dp_ok_check; exact Lim].
+Qed.
+
+Lemma quiet_discard_header_block c fr : quiet_core c (fst (discard_header_block dec_field cfg c fr)).
+Proof.
+  unfold discard_header_block. destruct (fkind_eqb (sf_kind fr) KCont); [apply quiet_discard_fragment|].
+  eapply quiet_trans; [apply quiet_upd_discard | apply quiet_discard_fragment].
+Qed.
+
+Lemma lite_discard_header_block c fr :
+  snd (discard_header_block dec_field cfg c fr) = None -> lite c (fst (discard_header_block dec_field cfg c fr)).
 Proof.
   unfold discard_header_block. destruct (fkind_eqb (sf_kind fr) KCont); [apply lite_discard_fragment|].
-  eapply lite_trans; [apply lite_upd_discard | apply lite_discard_fragment].
+  intro H. eapply lite_trans; [apply lite_upd_discard, dp_ok_nil | apply lite_discard_fragment; exact H].
 Qed.
 
-Lemma lite_handle_header_frame c s fr : lite c (fst (fst (handle_header_frame dec_field cfg c s fr))).
+(* a frame handler's error that does not end the connection *)
+Definition soft_err (e : option h2err) : Prop := match e with None | Some (EReset _) => True | _ => False end.
+
+Lemma quiet_handle_header_frame c s fr : quiet_core c (fst (fst (handle_header_frame dec_field cfg c s fr))).
 Proof.
   unfold handle_header_frame.
-  destruct (_ && _)%bool; [apply lite_refl|]. destruct (_ && _)%bool; [apply lite_refl|].
+  destruct (_ && _)%bool; [apply quiet_refl|]. destruct (_ && _)%bool; [apply quiet_refl|].
   destruct (header_loop dec_field _ cfg _ (sc_dec c) _ _) as [[[d' h2] e] rest].
   destruct e as [[code|code|]|].
-  - cbn [fst]. apply lite_upd_dec.
+  - cbn [fst]. apply quiet_upd_dec.
   - match goal with |- context [discard_fragment ?a ?b ?c0 ?d ?e ?f] =>
-      pose proof (lite_discard_fragment c0 d e f) as L; destruct (discard_fragment a b c0 d e f) as [c3 [de|]] end;
-    cbn [fst] in *; (eapply lite_trans; [apply lite_upd_dec|]; eapply lite_trans; [apply lite_upd_discard | exact L]).
-  - cbn [fst]. apply lite_upd_dec.
-  - destruct (_ && _)%bool; cbn [fst]; apply lite_upd_dec.
+      pose proof (quiet_discard_fragment c0 d e f) as L; destruct (discard_fragment a b c0 d e f) as [c3 [de|]] end;
+    cbn [fst] in *; (eapply quiet_trans; [apply quiet_upd_dec|]; eapply quiet_trans; [apply quiet_upd_discard | exact L]).
+  - cbn [fst]. apply quiet_upd_dec.
+  - destruct (_ && _)%bool; cbn [fst]; apply quiet_upd_dec.
 Qed.
 
-Lemma lite_handle_frame c s fr : sc_sl_done c = false -> lite c (fst (fst (handle_frame dec_field cfg c s fr))).
+Lemma lite_handle_header_frame c s fr :
+  soft_err (snd (handle_header_frame dec_field cfg c s fr)) ->
+  lite c (fst (fst (handle_header_frame dec_field cfg c s fr))).
 Proof.
-  intro Hd. unfold handle_frame. destruct (verify_state s fr); [apply lite_refl|].
-  pose proof (lite_handle_header_frame c s fr) as LH.
+  unfold handle_header_frame.
+  destruct (_ && _)%bool; [intros _; apply lite_refl|]. destruct (_ && _)%bool; [intros _; apply lite_refl|].
+  destruct (header_loop dec_field _ cfg _ (sc_dec c) _ _) as [[[d' h2] e] rest].
+  destruct e as [[code|code|]|].
+  - cbn [fst snd]. intros _. apply lite_upd_dec.
+  - match goal with |- context [discard_fragment ?a ?b ?c0 ?d ?e ?f] =>
+      pose proof (lite_discard_fragment c0 d e f) as L; pose proof (discard_fragment_err _ dec_field cfg c0 d e f) as DE;
+      destruct (discard_fragment a b c0 d e f) as [c3 [de|]] end;
+    cbn [fst snd disc_oerr] in *.
+    + (* the discarding decoder failed: that error is returned, and it is never a stream error *)
+      intro SE. exfalso. destruct de; cbn in SE, DE; contradiction.
+    + intros _. eapply lite_trans; [apply lite_upd_dec|]. eapply lite_trans; [apply lite_upd_discard, dp_ok_nil | exact (L eq_refl)].
+  - cbn [fst snd]. intros _. apply lite_upd_dec.
+  - destruct (_ && _)%bool; cbn [fst snd]; intros _; apply lite_upd_dec.
+Qed.
+
+(* the frame handler's shape, shared by the next two lemmas: P holds of handle_frame's connection when it holds of
+   the kinds of result *)
+Lemma handle_frame_conn (P : sconn -> option h2err -> Prop) c s fr :
+  (forall e, P c e) ->
+  (let r := handle_header_frame dec_field cfg c s fr in
+   forall e, (e = snd r \/ snd r = None) -> P (fst (fst r)) e) ->
+  (P (credit_conn_window cfg c (Z.of_N (sf_len fr))) (Some (EReset c_EnhanceYourCalm))) ->
+  (forall s1, P (consume_recv_window cfg c s1 fr (Z.of_N (sf_len fr))) None) ->
+  P (fst (fst (handle_frame dec_field cfg c s fr))) (snd (handle_frame dec_field cfg c s fr)).
+Proof.
+  intros PC PH PD1 PD2. unfold handle_frame. destruct (verify_state s fr); [apply PC|].
   match goal with |- context [match sf_kind fr with KHeaders => ?X | _ => _ end] => set (hb := X) end.
-  assert (HH : lite c (fst (fst hb))).
-  { subst hb. destruct (_ && _)%bool; [apply lite_refl|].
-    destruct (handle_header_frame dec_field cfg c s fr) as [[c1 s1] e]. cbn [fst] in LH.
-    destruct e; [exact LH|]. destruct (flag_has (sf_flags fr) FL_EH); [|exact LH].
-    cbv zeta. destruct (negb _); [exact LH|]. destruct (validate_request_pseudo_headers _); exact LH. }
+  assert (HH : P (fst (fst hb)) (snd hb)).
+  { subst hb. destruct (_ && _)%bool; [apply PC|]. cbv zeta in PH.
+    destruct (handle_header_frame dec_field cfg c s fr) as [[c1 s1] e]. cbn [fst snd] in PH.
+    destruct e; [apply PH; left; reflexivity|]. destruct (flag_has (sf_flags fr) FL_EH); [|apply PH; auto].
+    cbv zeta. destruct (negb _); [apply PH; auto|].
+    destruct (validate_request_pseudo_headers _); cbn [fst snd]; apply PH; auto. }
   clearbody hb.
-  destruct (sf_kind fr); try apply lite_refl; try exact HH.
-  - (* DATA *)
-    destruct (negb _); [apply lite_refl|]. destruct (3 <=? _); [apply lite_refl|].
-    destruct (_ && _)%bool; cbn [fst].
-    + apply lite_credit_conn_window. exact Hd.
-    + apply lite_consume_recv_window. exact Hd.
-  - destruct (_ && _)%bool; [apply lite_refl|]. destruct (_ =? _); apply lite_refl.
-  - destruct (sstate_eqb _ _); apply lite_refl.
-  - destruct (sstate_eqb _ _); [apply lite_refl|]. destruct (_ =? _); [apply lite_refl|].
-    destruct (_ <? _)%Z; apply lite_refl.
+  destruct (sf_kind fr); try apply PC; try exact HH.
+  - destruct (negb _); [apply PC|]. destruct (3 <=? _); [apply PC|].
+    destruct (_ && _)%bool; cbn [fst snd]; [apply PD1 | apply PD2].
+  - destruct (_ && _)%bool; [apply PC|]. destruct (_ =? _); apply PC.
+  - destruct (sstate_eqb _ _); apply PC.
+  - destruct (sstate_eqb _ _); [apply PC|]. destruct (_ =? _); [apply PC|].
+    destruct (_ <? _)%Z; apply PC.
+Qed.
+
+Lemma lite_handle_frame c s fr : sc_sl_done c = false ->
+  soft_err (snd (handle_frame dec_field cfg c s fr)) -> lite c (fst (fst (handle_frame dec_field cfg c s fr))).
+Proof.
+  intro Hd. apply (handle_frame_conn (fun c' e => soft_err e -> lite c c')).
+  - intros e _. apply lite_refl.
+  - cbv zeta. intros e [-> | E] SE; apply lite_handle_header_frame; [exact SE | rewrite E; exact I].
+  - intros _. apply lite_credit_conn_window. exact Hd.
+  - intros s1 _. apply lite_consume_recv_window. exact Hd.
+Qed.
+
+(* an error that ends the connection leaves no output behind *)
+Lemma quiet_handle_frame c s fr :
+  ~ soft_err (snd (handle_frame dec_field cfg c s fr)) -> quiet_core c (fst (fst (handle_frame dec_field cfg c s fr))).
+Proof.
+  apply (handle_frame_conn (fun c' e => ~ soft_err e -> quiet_core c c')).
+  - intros e _. apply quiet_refl.
+  - cbv zeta. intros e _ _. apply quiet_handle_header_frame.
+  - intro H. exfalso. apply H. exact I.
+  - intros s1 H. exfalso. apply H. exact I.
 Qed.
 
 Lemma lite_send_data_loop fuel : forall c sid n, sc_sl_done c = false ->
@@ -221,7 +464,7 @@ Proof.
     match goal with |- context [emit c0 ?o] => set (oo := o) end.
     assert (L1 : lite c0 (upd_clientWindow (emit c0 oo)
        (sc_clientWindow (emit c0 oo) - zmin (zmin (Z.of_N maxDataFrameSize) (zmin (sn_window n0) (sc_clientWindow c0))) (Z.of_N (len (sn_pending n0)))))).
-    { eapply lite_trans; [apply (lite_emit _ c0 oo I H0) | apply lite_upd_clientWindow]. }
+    { eapply lite_trans; [apply (lite_emit _ cfg c0 oo I H0) | apply lite_upd_clientWindow]. }
     destruct (_ && _)%bool; cbn [fst]; [exact L1|].
     eapply lite_trans; [exact L1|]. apply IH. sc_cbn. rewrite sc_sl_done_emit. exact H0. }
   destruct (sn_pending n) eqn:EP.
@@ -246,7 +489,7 @@ Proof.
   intro Hd. unfold finish_request. destruct (response_block enc_field (sc_enc c) r) as [blk e'].
   match goal with |- context [emit (upd_enc c e') ?o] => set (oo := o) end.
   assert (L1 : lite c (emit (upd_enc c e') oo)).
-  { eapply lite_trans; [apply lite_upd_enc | apply (lite_emit _ (upd_enc c e') oo I Hd)]. }
+  { eapply lite_trans; [apply lite_upd_enc | apply (lite_emit _ cfg (upd_enc c e') oo I Hd)]. }
   destruct (negb _); [exact L1|].
   eapply lite_trans; [exact L1 | apply lite_send_data]. rewrite sc_sl_done_emit. exact Hd.
 Qed.
